@@ -241,7 +241,7 @@ class Kernel:
             k.term = self.canon(fo.term if fo.kind != "LAST" else fo.value, loop.id)
         if fo.kind == "EXT":
             k.sense, k.strict = fo.sense, fo.strict
-            k.band = self.canon(fo.cond, loop.id) if getattr(fo, "band", False) else None
+            k.band = self.canon(getattr(fo, "cond_text", fo.cond), loop.id) if getattr(fo, "band", False) else None
             fe = self.first_elem_init(init, loop) if init is not None else None
             if getattr(fo, "none_seeded", False):
                 k.init = ("first",)
